@@ -146,7 +146,8 @@ CLAIMS = {
         "every x, positive step and dimension: forward never below x / backward never above (scalar, Hessdiag, Hessian in every "
         "coordinate); central in pairs symmetric about x; complex (first-derivative rule) and multicomplex keep the real part exactly x; "
         "real-step points within 1 (2 for central2) steps; Jacobian/Hessdiag change exactly one coordinate, Hessian at most two, all "
-        "valid indices; the scalar quotients depend on f only through the listed points. Tie: every argument passed to the user function "
+        "valid indices; the scalar quotients depend on f only through the listed points; imaginary_only_rule_selected: on the generated name "
+        "dispatch, complex with n=1 and order<4 selects the plain rule and multicomplex (n=1,2) its two rules, whose points keep Re = x. Tie: every argument passed to the user function "
         "by the real classes is recorded and the multiset equals the Float model's list bit for bit (all classes x methods x n<=6 x order<=8 "
         "x dim<=5 x step generators), plus the number of evaluations at x itself.",
    technique="Lean 4 proof of admissibility of the modelled point lists + bit-exact correspondence of recorded arguments"),
@@ -180,7 +181,9 @@ CLAIMS = {
         "and write are separated by arbitrary writes of other threads still obtains compute key and leaves a correct cache), "
         "set_restore_identity. Tie: random operation sequences on the real library; sorted(FD_RULES) and the generator _state after every "
         "operation equal the model's trace (keys computed with the generated LogRule logic). Search: every call result bit for bit against a "
-        "separate interpreter with empty cache and new objects; 16 threads on disjoint objects vs sequential. Partial: GIL-granularity model of "
+        "separate interpreter with empty cache and new objects (also histories in which one user-created step generator - default or explicit scale / "
+        "base step, scalar or array-valued - serves several Derivative / Hessdiag objects of different method, n, order); the caller's base_step array "
+        "is re-examined; 16 threads on disjoint objects vs sequential. Partial: GIL-granularity model of "
         "threads; numpy/LAPACK internals outside.",
    technique="Lean 4 invariant + refinement proof over all operation sequences / interleavings + exact trace correspondence"),
  'C18': dict(
